@@ -37,12 +37,14 @@ Tier1(r) ==
   ELSE <<V(r.id, "violation", "", "CleanExit: exit status " \o ToString(r.rc) \o ", panic '" \o r.panicAt \o "'" \o where)>>
 
 (* ---- tier 2 ---- *)
-Impl == {"UnwrapSharedContext", "JoinBlockedInAccept", "SessionIgnoresFlag", "SignalPanicsDebugThread", "BusyStepBlocksJoin"}
-H0 == [s |-> S0, ok |-> TRUE, n |-> 0, why |-> ""]
+(* r.devs: the deviations pinned for the tree under test (open findings and the latent ones behind them) *)
+DevsOf(r) == {r.devs[k] : k \in 1..Len(r.devs)}
+H0(r) == [s |-> S0, ok |-> TRUE, n |-> 0, why |-> "", dev |-> DevsOf(r)]
 Rej(h, n, why) == [h EXCEPT !.ok = FALSE, !.n = n, !.why = why]
 Need(h, n, cond, sn, why) == IF cond THEN [h EXCEPT !.s = sn] ELSE Rej(h, n, why)
 Ev(h, e, n) ==
-  LET s == h.s IN
+  LET s == h.s
+      Impl == h.dev IN
   CASE e.what = "dbg_started" -> h
     [] e.what = "lsp_initialized" -> Need(h, n, s.m = "init", MInit(s), "initialized twice")
     [] e.what = "shutdown_request" -> Need(h, n, MShutdownEn(s, Impl), MShutdown(s), "shutdown outside the main loop")
@@ -50,12 +52,12 @@ Ev(h, e, n) ==
     [] e.what = "main_loop_left" -> Need(h, n, s.m \in {"serve", "drain"} /\ e.n - s.refs \in -1..(IF s.d = "dead" THEN 2 ELSE 1) /\ (e.n > 1) = (s.refs > 1),   \* the count is read while the other thread may be cloning/dropping (or unwinding)
                                          MLeft(s), "main loop left in model state " \o s.m \o " with refcount " \o ToString(e.n) \o " (model " \o ToString(s.refs) \o ")")
     [] e.what = "io_joined" -> Need(h, n, s.m = "left" /\ MUnwrap(s, Impl).m = "io", MUnwrap(s, Impl), "IO threads joined although the model's unwrap panics")
-    [] e.what = "dbg_join_enter" -> Need(h, n, s.m = "io", MSetFlag(s), "DebugServer::join entered early")
-    [] e.what = "dbg_join_return" -> Need(h, n, MJoinEn(s), MJoin(s), "join returned while the debug thread has not ended")
+    [] e.what = "dbg_join_enter" -> Need(h, n, s.m = "io", MSetFlag(s, Impl), "DebugServer::join entered early")
+    [] e.what = "dbg_join_return" -> Need(h, n, MJoinEn(s, Impl), MJoin(s), "join returned while the debug thread has not ended")
     [] e.what = "session_new" -> Need(h, n, DTopEn(s) /\ ~s.flag, DTop(s), "new session in model state " \o s.d)
     [] e.what = "accept_enter" -> Need(h, n, s.d = "new", DBind(s), "accept entered in model state " \o s.d)
     [] e.what = "accepted" -> Need(h, n, s.d = "accept", DAccept(s), "accepted without blocking accept")
-    [] e.what = "handler_registered" -> Need(h, n, DRegEn(s), DReg(s), "handler registered while the context lock is held by the shutdown handshake")
+    [] e.what = "handler_registered" -> Need(h, n, DRegEn(s), DReg(s, Impl), "handler registered while the context lock is held by the shutdown handshake")
     [] e.what = "client_gone" -> Need(h, n, s.d = "session", DEndSess(s), "client gone outside a session")
     [] e.what = "shutdown_signal" -> Need(h, n, s.d = "session" /\ s.sig, DSig(s, Impl), "shutdown signal without an invoked handler")
     [] e.what = "session_end" -> Need(h, n, s.d = "ending", DDrop(s), "session end in model state " \o s.d)
@@ -64,8 +66,9 @@ Ev(h, e, n) ==
 RECURSIVE Fold(_, _, _)
 Fold(r, h, n) == IF n > Len(r.life) \/ ~h.ok THEN h ELSE Fold(r, Ev(h, r.life[n], n), n + 1)
 Tier2(r) ==
-  LET h == Fold(r, H0, 1)
-      s == h.s IN
+  LET h == Fold(r, H0(r), 1)
+      s == h.s
+      Impl == h.dev IN
   IF ~h.ok THEN <<V(r.id, "drift", "Shutdown", "life event " \o ToString(h.n) \o ": " \o h.why)>>
   ELSE IF r.life = <<>> THEN <<>>
   ELSE (* what the model says about the end of this run must be what was observed *)
